@@ -34,6 +34,7 @@ func configure(g *gen) {
 			{"handleMethodNotAllowed", "bool", "handleMethodNotAllowed", tBool},
 			{"enableCaching", "bool", "enableCaching", tBool},
 			{"useEncodedPath", "bool", "useEncodedPath", tBool},
+			{"counter", "int", "counter", tInt},
 		}},
 	}
 	g.opaque["error"] = T{"opaque", "Bool"} // true = a non-nil error
@@ -107,6 +108,28 @@ func configure(g *gen) {
 			{Callee: "$.cacheDynamicRoute", Stmts: []string{"s := env.cacheDynamic s %1 %2 %3"}},
 		}})
 	_ = route
+	// router.go: the table-insertion part of `appendRoute` over abstract tables; the checks and the compilation of
+	// the pattern (goodInfo, appendGroupInfo, parseParamRoute) are operations of the environment that may panic
+	// and that update the route
+	add(FnSpec{Recv: "Router", Func: "appendRoute", Lean: "Router.appendRoute",
+		Extra:    []string{"{σ ρ : Type}", "(env : GoRt.AEnv σ ρ)", "(s0 : σ)"},
+		Prologue: []string{"let mut s := s0"}, RetExtra: []string{"s"}, RetExtraT: []string{"σ"},
+		Types: map[string]T{"*rux.Route": {"opaque", "ρ"}, "rux.routes": {"opaque", "List ρ"}}, MutParams: []string{"route"},
+		Exts: []Ext{
+			{Callee: "_.goodInfo", Stmts: []string{"let %t ← env.goodInfo %1"}, MayPanic: true},
+			{Callee: "$.appendGroupInfo", Stmts: []string{"let %t ← env.appendGroupInfo s %1", "s := %t.1", "route := %t.2"}, MayPanic: true},
+			{Callee: "debugPrintRoute", Ignore: true},
+			{Callee: "_.name", Value: "(env.name %1)", T: tStr},
+			{Callee: "_.path", Value: "(env.path %1)", T: tStr},
+			{Callee: "_.methods", Value: "(env.methods %1)", T: tStrList},
+			{Callee: "$.namedRoutes[]=", Stmts: []string{"s := env.setNamed s %1 %2"}},
+			{Callee: "$.parseParamRoute", Stmts: []string{"let %t ← env.parseParam s %1", "route := %t.2"}, Value: "%t.1", T: tStr, MayPanic: true},
+			{Callee: "$.stableRoutes[]=", Stmts: []string{"s := env.setStable s %1 %2"}},
+			{Callee: "$.regularRoutes[]", Values: []string{"(env.getRegular s %1).1", "(env.getRegular s %1).2"}, Ts: []T{{"opaque", "List ρ"}, tBool}},
+			{Callee: "$.irregularRoutes[]", Values: []string{"(env.getIrregular s %1).1", "(env.getIrregular s %1).2"}, Ts: []T{{"opaque", "List ρ"}, tBool}},
+			{Callee: "$.regularRoutes[]=", Stmts: []string{"s := env.setRegular s %1 %2"}},
+			{Callee: "$.irregularRoutes[]=", Stmts: []string{"s := env.setIrregular s %1 %2"}},
+		}})
 	// response_wirter.go
 	add(FnSpec{Recv: "responseWriter", Func: "reset", Lean: "RW.reset", Exts: []Ext{
 		// w.Writer = w2: a new underlying writer, nothing has reached it yet
